@@ -417,6 +417,51 @@ func runC03(c *Ctx) {
 				}
 				c.check(good, "R5", "channel per request in "+fnName(s.Parent()), pos(s), "each dispatched request takes its own channel from the pool in the same iteration", "a dispatched request reuses a channel that is not freshly taken from the pool in this iteration")
 			}
+			// channels handed to the synchronous sendPacket are private to the call: nil, made locally, or a parameter
+			// that is itself private at every call site; never shared state (a field or global)
+			spf := p.Func("(*clientConn).sendPacket")
+			var private func(v ssa.Value, depth int) (bool, string)
+			private = func(v ssa.Value, depth int) (bool, string) {
+				if depth > 5 {
+					return false, "provenance too deep"
+				}
+				for _, l := range leavesOf(v) {
+					switch l.Kind {
+					case leafConst:
+						if !isNilConst(l.V) {
+							return false, l.V.String()
+						}
+					case leafParam:
+						ok, und := p.closedOverCallers(l.Param, func(arg ssa.Value, _ ssa.Instruction) bool {
+							g, _ := private(arg, depth+1)
+							return g
+						})
+						if und || !ok {
+							return false, "parameter " + l.Param.Name() + " of " + fnName(l.Param.Parent()) + " is not private at every call site"
+						}
+					case leafFieldLoad:
+						return false, "field " + l.Field + " (state shared between calls)"
+					case leafGlobal:
+						return false, "global " + l.V.Name()
+					case leafCallResult:
+						if l.Call.StaticCallee() != poolGet {
+							return false, "result of " + calleeName(l.Call)
+						}
+					default:
+						if _, isMake := l.V.(*ssa.MakeChan); !isMake {
+							return false, l.V.String()
+						}
+					}
+				}
+				return true, ""
+			}
+			for s, ch := range chArg {
+				if callOf(s).StaticCallee() != spf {
+					continue
+				}
+				ok, why := private(ch, 0)
+				c.check(ok, "R5", "result channel private to the call in "+fnName(s.Parent()), pos(s), "nil, locally made, or a private parameter", "the result channel handed to sendPacket is shared between calls ("+why+"): two concurrent requests wait on one channel and can receive each other's reply")
+			}
 			// pool hands out channels with capacity 1
 			capOK := false
 			eachInstr(poolGet, func(in ssa.Instruction) {
